@@ -36,7 +36,7 @@ func (r *byteReader) remaining() int {
 }
 
 func (r *byteReader) read(n int) ([]byte, error) {
-	if r.remaining() < n {
+	if n < 0 || r.remaining() < n {
 		return nil, fmt.Errorf("insufficient bytes: need %d have %d", n, r.remaining())
 	}
 	start := r.pos
